@@ -186,3 +186,54 @@ pub proof fn lemma_simple_piece(src: Seq<char>, lo: int, hi: int)
         assert(p[x + 1] == src[lo + x + 1]);
     }
 }
+
+// ---- the same fragment with blanks around the argument (`f(a, b)`: the second argument is " b") -----------------------------
+pub open spec fn all_blank(s: Seq<char>, lo: int, hi: int) -> bool { forall|k: int| lo <= k < hi ==> #[trigger] s[k] == ' ' }
+// [lo, a) blanks, [a, b) simple characters, [b, hi) blanks
+pub open spec fn blank_simple_blank(s: Seq<char>, lo: int, a: int, b: int, hi: int) -> bool {
+    lo <= a <= b <= hi && all_blank(s, lo, a) && all_simple(s, a, b) && all_blank(s, b, hi)
+}
+// such a piece trims to its core
+pub proof fn lemma_trim_core(s: Seq<char>, lo: int, a: int, b: int, hi: int, r: Seq<char>)
+    requires
+        0 <= lo, hi <= s.len(), blank_simple_blank(s, lo, a, b, hi),
+        is_trim_of(r, s.subrange(lo, hi)),
+        r.len() > 0 ==> !is_ws(r[0]) && !is_ws(r[r.len() - 1]),
+    ensures r == s.subrange(a, b),
+{
+    axiom_blank_is_ws();
+    let p = s.subrange(lo, hi);
+    let (i, j) = choose|i: int, j: int| trim_at(r, p, i, j);
+    assert(trim_at(r, p, i, j));
+    if a == b {
+        // nothing but blanks: a non-empty result would begin with one
+        if r.len() > 0 { assert(r[0] == p[i]); assert(p[i] == s[lo + i]); assert(s[lo + i] == ' '); }
+        assert(r =~= s.subrange(a, b));
+    } else {
+        assert(simple_char(s[a]) && simple_char(s[b - 1]));
+        // the first character of the core is not trimmed away, and nothing before it is kept
+        if i > a - lo { assert(is_ws(p[a - lo])); assert(p[a - lo] == s[a]); }
+        if j < b - lo { assert(is_ws(p[b - 1 - lo])); assert(p[b - 1 - lo] == s[b - 1]); }
+        assert(r.len() > 0);
+        if i < a - lo { assert(r[0] == p[i]); assert(p[i] == s[lo + i]); assert(s[lo + i] == ' '); }
+        if j > b - lo { assert(r[r.len() - 1] == p[j - 1]); assert(p[j - 1] == s[lo + j - 1]); assert(s[lo + j - 1] == ' '); }
+        assert(r =~= s.subrange(a, b));
+    }
+}
+
+// a core of simple characters: no infix on its own, nothing to unescape
+pub proof fn lemma_simple_core(src: Seq<char>, lo: int, hi: int)
+    requires 0 <= lo <= hi <= src.len(), all_simple(src, lo, hi),
+    ensures
+        unescape2(src.subrange(lo, hi)) == src.subrange(lo, hi),
+        !is_arith(arith_infix(src.subrange(lo, hi)).0),
+{
+    let p = src.subrange(lo, hi);
+    if p.len() == 2 { assert(simple_char(src[lo])); assert(p[0] == src[lo]); }
+    axiom_arith_infix_is_a_sign(p);
+    if is_arith(arith_infix(p).0) {
+        let x = arith_infix(p).1 as int;
+        assert(simple_char(src[lo + x + 1]));
+        assert(p[x + 1] == src[lo + x + 1]);
+    }
+}
